@@ -5508,26 +5508,13 @@ impl BytecodeVM {
 
             Op::SpreadObject { dst, src } => {
                 // Copy all enumerable own properties from src to dst
-                let dst_val = self.get_reg(dst);
-                let src_val = self.get_reg(src);
+                let dst_val = self.get_reg(dst).clone();
+                let src_val = self.get_reg(src).clone();
 
-                if let (JsValue::Object(dst_obj), JsValue::Object(src_obj)) = (&dst_val, &src_val) {
-                    // Collect properties first to avoid borrow issues
-                    let props_to_copy: Vec<_> = {
-                        let src_borrowed = src_obj.borrow();
-                        src_borrowed
-                            .properties
-                            .iter()
-                            .filter(|(_, prop)| prop.enumerable())
-                            .map(|(key, prop)| (key.clone(), prop.value.clone()))
-                            .collect()
-                    };
-
-                    // Copy properties to destination
-                    let mut dst_borrowed = dst_obj.borrow_mut();
-                    for (key, value) in props_to_copy {
-                        dst_borrowed.set_property(key, value);
-                    }
+                if let JsValue::Object(dst_obj) = &dst_val {
+                    crate::interpreter::builtins::object::copy_data_properties(
+                        interp, dst_obj, &src_val, false,
+                    )?;
                 }
                 Ok(OpResult::Continue)
             }
